@@ -5,5 +5,21 @@ META = {
  "C01": {"text": "Generated single-thread histories over all allocation/release/resize entry points, sizes 0..100 MiB, heaps, collects and helper-thread frees are executed against a shadow model that checks interval disjointness and a byte pattern over the full usable size after every step, on the release, full-debug and secure builds. Exploration is the right level: the property quantifies over unbounded histories; the check reports how many distinct non-trivial histories it ran.",
          "design_ref": "DESIGN.md §5 C01, §4.1", "note": "Trusts the shadow model (std::map interval map + pattern function) and the kernel; blocks > 1 MiB are sampled at 3 bytes per page; single platform (Linux x86-64).", "technique": PBT},
 }
+
+NOTE_HIST = "Trusts the shadow model (interval map, byte-pattern function, heap attribution), the IR executor's respect of documented preconditions (listed as assumptions in the evidence) and the kernel; Linux x86-64 only; blocks > 1 MiB sampled."
+META.update({
+ "C03": {"text": "Generated (size, alignment 2^0..2^27, offset) triples through every aligned entry point on top of random prior heap states, with follow-up use of the (interior) pointers by usable_size/expand/free variants/realloc family; address arithmetic and the C01 model are the oracle, on release, debug and secure builds. Exploration: the input space is unbounded; boundary-biased generation plus measured non-trivial counts.",
+         "design_ref": "DESIGN.md §5 C03", "note": NOTE_HIST, "technique": PBT},
+ "C04": {"text": "Generated dirty-then-zero histories and monotone rezalloc/recalloc growth chains (writes confined to the requested size) check that requested / newly grown bytes read zero, on memory the model knows was dirtied; found and now guards the repaired rezalloc-slack defect (F2).",
+         "design_ref": "DESIGN.md §5 C04, §6 F2", "note": NOTE_HIST, "technique": PBT},
+ "C05": {"text": "Generated old/new size pairs across in-place, class, page-kind and huge boundaries through every realloc-family entry point (heap twins, aligned, count forms, expand, failing calls); prefix equality with the shadow copy, release of the old block observed through the model, NULL => old block intact.",
+         "design_ref": "DESIGN.md §5 C05", "note": NOTE_HIST, "technique": PBT},
+ "C06": {"text": "Generated boundary argument tuples (SIZE_MAX, PTRDIFF_MAX, MI_MAX_ALLOC_SIZE, overflowing products, bad alignments) for every allocating/re-allocating entry point inside a live history; the executor classifies must-fail calls and checks NULL/EINVAL/ENOMEM/errno/out-parameter and that the heap (live blocks + heap walk) is unchanged; well-formed requests <= 64 MiB must succeed (enforced in all hist checks).",
+         "design_ref": "DESIGN.md §5 C06", "note": NOTE_HIST, "technique": PBT},
+ "C10": {"text": "Generated histories over up to 6 extra heaps with delete/destroy/set_default in any order; ownership attribution swept against the model, blocks of deleted heaps stay valid, destroyed heaps take exactly their blocks. Found and now guards the repaired destroy-frees-reclaimed-pages defect (F7); one known finding (F5) is excluded by construction and demonstrated by a replay. The schedule-quantified half is decided by the scheduler harness when present.",
+         "design_ref": "DESIGN.md §5 C10, §6", "note": NOTE_HIST, "technique": PBT},
+ "C12": {"text": "Generated histories leaving empty/holey/full/single-block pages and interior aligned blocks, interleaved with heap walks (one third with a generated early stop); the multiset of visited ranges is compared with the model's live set per heap, incl. per-area used counts and heap descriptors.",
+         "design_ref": "DESIGN.md §5 C12", "note": NOTE_HIST, "technique": PBT},
+})
 ALL = ["C%02d" % i for i in range(1, 21)]
 NOT_APPLICABLE = [{"property_id": p, "reason": "check not built yet in this revision (planned, see DESIGN.md §10); not claimed"} for p in ALL if p not in CHECKS]
